@@ -592,7 +592,7 @@ func (t *Tracer) walk(fr *frame, b *ssa.BasicBlock, i int, p *pstate, k func(*ps
 			fn := StaticCallee(&x.Call)
 			name := "?"
 			if fn != nil {
-				name = fn.Name()
+				name = NameOf(fn)
 			}
 			t.emit(p, fr, Event{Kind: "spawn", Name: name, Instr: x, Args: t.resolveAll(fr, p, x.Call.Args)})
 			if fn == nil || fn.Parent() == nil {
@@ -980,9 +980,9 @@ func (t *Tracer) callCommon(fr *frame, in ssa.Instruction, cc *ssa.CallCommon, v
 	}
 	switch {
 	case pkgPath == m.PkgPath && recvName == "Session":
-		switch fn.Name() {
+		switch NameOf(fn) {
 		case "send", "sendWithErrorCheck", "Send":
-			ev(Event{Kind: "send", Name: fn.Name(), Kinds: m.MsgKindOf(rarg(1), nil)})
+			ev(Event{Kind: "send", Name: NameOf(fn), Kinds: m.MsgKindOf(rarg(1), nil)})
 			return false
 		case "checkLogonParams":
 			ev(Event{Kind: "check", Name: "params"})
@@ -998,7 +998,7 @@ func (t *Tracer) callCommon(fr *frame, in ssa.Instruction, cc *ssa.CallCommon, v
 			return false
 		}
 	case strings.HasSuffix(pkgPath, "/utils") && recvName == "EventHandlerPool":
-		switch fn.Name() {
+		switch NameOf(fn) {
 		case "Handle":
 			ev(Event{Kind: "register", Name: eventName(cc.Args[1])})
 		case "Clean":
@@ -1007,13 +1007,13 @@ func (t *Tracer) callCommon(fr *frame, in ssa.Instruction, cc *ssa.CallCommon, v
 			ev(Event{Kind: "trigger", Name: eventName(cc.Args[1])})
 		}
 		return false
-	case strings.HasSuffix(pkgPath, "/utils") && (recvName == "Timer" || fn.Name() == "NewTimer"):
-		ev(Event{Kind: "timer", Name: fn.Name()})
+	case strings.HasSuffix(pkgPath, "/utils") && (recvName == "Timer" || NameOf(fn) == "NewTimer"):
+		ev(Event{Kind: "timer", Name: NameOf(fn)})
 		return false
-	case pkgPath == "time" && fn.Name() == "AfterFunc":
+	case pkgPath == "time" && NameOf(fn) == "AfterFunc":
 		ev(Event{Kind: "afterfunc"})
 		return false
-	case pkgPath == "time" && recvName == "Timer" && fn.Name() == "Stop":
+	case pkgPath == "time" && recvName == "Timer" && NameOf(fn) == "Stop":
 		ev(Event{Kind: "timerstop"})
 		return false
 	case pkgPath == "sync":
@@ -1022,10 +1022,10 @@ func (t *Tracer) callCommon(fr *frame, in ssa.Instruction, cc *ssa.CallCommon, v
 	// --- splice same-package functions (and closures called directly)
 	if pkgPath == m.PkgPath && len(fn.Blocks) > 0 && !t.NoSplice[fn] {
 		if fr.depth >= m.MaxDepth || t.onStack(fr, fn) {
-			ev(Event{Kind: "call", Name: fn.Name() + " (not spliced: depth)"})
+			ev(Event{Kind: "call", Name: NameOf(fn) + " (not spliced: depth)"})
 			return false
 		}
-		ev(Event{Kind: "enter", Name: fn.Name()})
+		ev(Event{Kind: "enter", Name: NameOf(fn)})
 		nf := &frame{fn: fn, visited: map[*ssa.BasicBlock]bool{}, depth: fr.depth + 1, up: fr, sub: map[ssa.Value]ssa.Value{}, phis: map[*ssa.Phi]ssa.Value{}}
 		for i, prm := range fn.Params {
 			if i < len(cc.Args) {
@@ -1167,7 +1167,7 @@ func (m *SessionModel) Method(name string) *ssa.Function {
 			return m.Pkg.Prog.MethodValue(ms.At(i))
 		}
 	}
-	return nil
+	return FindPinned(m.Pkg, "Session", name) // renamed
 }
 
 // MsgTypeKeyOfBuilder: v is a load of MessageBuilders.<K>Builder → K.
